@@ -33,8 +33,14 @@ Fixpoint same_strings (a b : list string) : bool :=
 Lemma conf_hello_timeout : gen_hello_timeout_ns = hello_timeout_ns.
 Proof. vm_compute. reflexivity. Qed.
 
-(** every exit of AttachClient that sends ABORT: reason and message flag, in source order *)
-Lemma conf_abort_exits : same_exits gen_abort_exits abort_exits = true.
+(** every exit of AttachClient that sends ABORT uses one of the (reason,
+    message?) pairs the model produces, and every pair of the model is used *)
+Definition pair_mem (x : string * bool) (l : list (string * bool)) : bool :=
+  existsb (fun y => String.eqb (fst x) (fst y) && Bool.eqb (snd x) (snd y)) l.
+
+Lemma conf_abort_exits :
+  forallb (fun x => pair_mem x abort_exits) gen_abort_exits
+  && forallb (fun x => pair_mem x gen_abort_exits) abort_exits = true.
 Proof. vm_compute. reflexivity. Qed.
 
 (** sendAbort sends the ABORT and then closes the peer; the message text is
@@ -65,11 +71,42 @@ Lemma conf_assembly :
   end && String.eqb gen_session_key session_key = true.
 Proof. vm_compute. reflexivity. Qed.
 
-(** the stages of AttachClient, in source order *)
+(** the stages of AttachClient keep their order: first receive; realm lookup;
+    roles check and transport injection before authClient; authClient before
+    the assembly; the assembly before handleSession; WELCOME is sent only after
+    handleSession's realm-closed check and onJoin — either by AttachClient
+    after handleSession returned, or inside handleSession after onJoin — and
+    the session handler is started after onJoin. *)
+Fixpoint index_of (x : string) (l : list string) (i : nat) : option nat :=
+  match l with
+  | [] => None
+  | y :: r => if String.eqb x y then Some i else index_of x r (S i)
+  end.
+
+Definition before (a b : string) (l : list string) : bool :=
+  match index_of a l 0, index_of b l 0 with
+  | Some i, Some j => Nat.ltb i j
+  | _, _ => false
+  end.
+
+Definition occurs (a : string) (l : list string) : bool :=
+  match index_of a l 0 with Some _ => true | None => false end.
+
 Lemma conf_stages :
-  same_strings gen_stages
-    ["recv_hello"; "realm_lookup"; "new_session"; "roles_check"; "inject_transport";
-     "auth_client"; "assemble"; "handle_session"; "send_welcome"] = true.
+  (match gen_stages with "recv_hello" :: _ => true | _ => false end)
+  && before "recv_hello" "realm_lookup" gen_stages
+  && before "realm_lookup" "roles_check" gen_stages
+  && before "roles_check" "auth_client" gen_stages
+  && before "inject_transport" "auth_client" gen_stages
+  && before "auth_client" "assemble" gen_stages
+  && before "assemble" "handle_session" gen_stages
+  && before "closed_check_returns_error" "on_join" gen_handle_session_steps
+  && before "on_join" "start_handler" gen_handle_session_steps
+  && (if occurs "send_welcome" gen_stages
+      then before "handle_session" "send_welcome" gen_stages
+           && negb (occurs "send_welcome" gen_handle_session_steps)
+      else before "on_join" "send_welcome" gen_handle_session_steps)
+  = true.
 Proof. vm_compute. reflexivity. Qed.
 
 (** authClient: who skips authentication, what a local peer's welcome says,
